@@ -17,7 +17,7 @@ def load_config_paths(I: Interp, config: Any) -> List[Path]:
 
     def thunk(I: Interp) -> Value:
         cfg = config if isinstance(config, Value) else lift_skeleton(I, config)
-        return I.call_func(m, [cfg], {}, Obj(cfg_cls, {}), None, None)
+        return I.call_func(m, [cfg], {}, I.construct(cfg_cls, [], {}, None, None), None, None)
     return I.explore(thunk)
 
 
